@@ -1549,6 +1549,15 @@ class CircuitTemplate(AbstractBaseTemplate):
 
                 # extend edge dict by edge variables
                 base_dict = edge_col[group_key]
+                # an attribute that only some edges of the group carry (a delay, a spread, `delay: None`) is None for the
+                # others, otherwise the per-edge lists of the group get out of step
+                n_old = len(base_dict['target_idx'])
+                for key in base_dict:
+                    if key not in edge_dict and key not in ('source_idx', 'target_idx'):
+                        edge_dict[key] = None
+                for key in edge_dict:
+                    if key not in base_dict:
+                        base_dict[key] = [None] * n_old
                 for key, val in edge_dict.items():
                     val = [val] * edge_len
                     base_dict[key].extend(val)
